@@ -454,9 +454,9 @@ def run(ctx):
     unknown = [e for effs in model._node_eff.values() for l in effs.values() for e in l if e[0] == "SQL?"]
     for e in unknown:
         ctx.undecided("C13.schema", where("", "", e[1].line), e[1].stmt, "SQL text of this execute() is not a constant")
-    rule_commit_replace(ctx, model)
-    rule_schema(ctx, model)
-    rule_bind(ctx, model)
-    rule_blob(ctx, model)
+    ctx.guarded("C13.commit_replace", rule_commit_replace, ctx, model)
+    ctx.guarded("C13.schema", rule_schema, ctx, model)
+    ctx.guarded("C13.bind", rule_bind, ctx, model)
+    ctx.guarded("C13.blob", rule_blob, ctx, model)
     ctx.units["C13.tables"] = sorted(model.tables)
     ctx.units["C13.sql_statements"] = len(model.stmts)
